@@ -415,7 +415,7 @@ func judge(r *core.Run, o *outcome) {
 	// 1. lock discipline and completeness of everything read
 	writer, readers := -1, map[int]bool{}
 	renames := map[int]int{}
-	creations := map[int]int{} // Get = ErrNotExist under the exclusive lock, followed by a Put: openKeyRing creates
+	creations := map[int]int{} // the thread's last Get said ErrNotExist and it renames: openKeyRing creates the ring
 	sawMissing := map[int]bool{}
 	lastPut := map[int]absRing{}
 	stored := map[int]int{} // keys in the stored ring, per path
@@ -427,9 +427,9 @@ func judge(r *core.Run, o *outcome) {
 		case "L":
 			r.Check(writer < 0 && len(readers) == 0, "lock-not-exclusive", desc(fmt.Sprintf("thread %d got the exclusive lock while it was held", rc.tid)))
 			writer = rc.tid
-			sawMissing[rc.tid] = false
 		case "U":
 			writer = -1
+			sawMissing[rc.tid] = false
 		case "RL":
 			r.Check(writer < 0, "rlock-during-write", desc(fmt.Sprintf("thread %d got the shared lock during a write", rc.tid)))
 			readers[rc.tid] = true
@@ -440,9 +440,8 @@ func judge(r *core.Run, o *outcome) {
 			if rc.ok {
 				_, ok := o.w.decode(o.w.paths[o.w.pathID(rc.path)], rc.data)
 				r.Check(ok, "partial-read", desc(fmt.Sprintf("thread %d read a key ring that does not verify (partial or foreign write)", rc.tid)))
-			} else if writer == rc.tid {
-				sawMissing[rc.tid] = true
 			}
+			sawMissing[rc.tid] = !rc.ok
 		case "P", "N":
 			r.Check(writer == rc.tid, "write-unlocked", desc("Put/Rename without the exclusive lock"))
 			p := o.w.pathID(rc.path)
